@@ -24,10 +24,9 @@ ASSUMPTIONS = ['R (mon/refbufr) is a correct reading of FM-94 for the shapes of 
                'numeric fields wider than 48 bits with positive scale are skipped (float input cannot carry them)']
 BUDGET = {'quick': 45, 'thorough': 600}
 QUOTA = {'quick': 1100, 'thorough': 12000}
-REQUIRED = {'quick': {'evaluations': 2000, 'uncompressed_identical': 800, 'compressed_checked': 500,
-                      'shape_cases': 100},
-            'thorough': {'evaluations': 40000, 'uncompressed_identical': 15000,
-                         'compressed_checked': 10000, 'shape_cases': 100}}
+REQUIRED = {'quick': {'evaluations': 2000, 'uncompressed_identical': 800, 'compressed_checked': 500, 'shape_cases': 100},
+            'thorough': {'evaluations': 40000, 'uncompressed_identical': 15000, 'compressed_checked': 10000,
+                      'shape_cases': 100}}
 
 
 def anchors():
